@@ -11,10 +11,12 @@ use std::str::FromStr;
 pub fn render(t: &Value) -> String {
     if let Some(s) = t.get("s") {
         let text = s[0].as_str().unwrap_or("");
+        // an application tag on a scalar read as text does not change the text (`!x $a` is the key `$a`)
+        let tag = t.get("tag").and_then(|x| x.as_str()).map(|x| format!("{x} ")).unwrap_or_default();
         if s[1].as_bool().unwrap_or(false) {
-            text.to_string()
+            format!("{tag}{text}")
         } else {
-            yq(text)
+            format!("{tag}{}", yq(text))
         }
     } else if let Some(a) = t.get("seq") {
         format!("[{}]", a.as_array().unwrap().iter().map(render).collect::<Vec<_>>().join(", "))
@@ -325,7 +327,12 @@ pub fn gen(tier: &str, seed: u64, out: &mut dyn FnMut(Value)) {
                         if k == "matches" {
                             if let Some(m) = v.get_mut("map").and_then(|m| m.as_array_mut()) {
                                 if let Some(first) = m.first().cloned() {
-                                    m.push(json!([first[0].clone(), q(".other == '2'")]));
+                                    let mut k2 = first[0].clone();
+                                    if rng.chance(1, 2) {
+                                        // the same key again, spelled with an application tag
+                                        k2["tag"] = json!(*rng.pick(&["!operand", "!x", "!!str"]));
+                                    }
+                                    m.push(json!([k2, q(".other == '2'")]));
                                 }
                             }
                         }
